@@ -9,7 +9,7 @@ THEOREMS = ['MindsVerif.Props.C10.' + n for n in (
     'C10_catalog_legacy_list', 'C10_resolvers', 'C10_resolvers_same', 'C10_regression_1', 'C10_regression_2',
     'C10_old_resolver_partial', 'C10_resolvers_catalog', 'C10_regression_6', 'C10_catalog_default_case', 'C10_partial_stripped', 'C10_partial_stripped_today', 'C10_stripped_exact', 'C10_partial_pushdown',
     'C10_witness_3', 'C10_pushdown_full_false', 'C10_witness_5', 'C10_stripped_full_false',
-    'C10_model_version', 'C10_model_noversion', 'C10_model_step_simple', 'C10_model_case',
+    'C10_model_version', 'C10_model_no_hidden_state', 'C10_model_versions_independent', 'C10_model_noversion', 'C10_model_step_simple', 'C10_model_case',
     'C10_model_join', 'C10_model_join_project', 'C10_model_join_project_default', 'C10_regression_4', 'C10_main')]
 ASSUME = [
     'QueryPlanner.__init__, resolve_database_table, PlanJoinTablesQuery.resolve_table/process_table, get_predictor, '
@@ -165,6 +165,7 @@ def probe_ast(cat, ast, sql, deep=True, counterfactual=True):
                 cands = [r for r in refs if r['parts'] == tp or r['rest'] == tp]
                 tags = sorted({t for r in cands for t in r['tags']} | ({'case-operand'} if ('Case', 'arg') in tpath else set())
                               | ({'cte-definition'} if ('CommonTableExpression', 'query') in tpath else set())
+                              | ({'cte-body-join'} if cte_body_join(tpath) else set())
                               | ({'default-namespace-case'} if cat.dns and cat.dns != cat.dns.lower() and (tp[0] == cat.dns or str(integ) == cat.dns) else set()))
                 exp = sorted({str(r['db']) for r in cands})
                 kinds = sorted({r['kind'] for r in cands})
@@ -271,6 +272,16 @@ def all_nodes(node):
     return out
 
 
+def cte_body_join(path):
+    """the path runs through a CTE definition whose body is a join"""
+    for i, el in enumerate(path):
+        if el == ('CommonTableExpression', 'query'):
+            rest = path[i + 1:i + 3]
+            if len(rest) == 2 and rest[0] == ('Select', 'from_table') and rest[1][0] == 'Join':
+                return True
+    return False
+
+
 def kf_match(k, f):
     sig = k.get('signature', {})
     if 'class_re' in sig and not re.fullmatch(sig['class_re'], f.get('class', '')):
@@ -288,11 +299,15 @@ def cat_from_kwargs(kw):
         ints = [('n', i) if isinstance(i, str) else ('d', i['name'], i['type'], i.get('class_type')) for i in kw['integrations']]
     pm = None
     md = kw.get('predictor_metadata')
+    extra = lambda p: {k: v for k, v in p.items() if k not in ('name', 'integration_name')}
+    extras = {}
     if isinstance(md, list):
         pm = ('list', [(p['name'], p.get('integration_name')) for p in md])
+        extras = {p['name']: extra(p) for p in md if extra(p)}
     elif isinstance(md, dict):
         pm = ('legacy', [(n, p.get('integration_name')) for n, p in md.items()])
-    return R.Cat(ints, kw.get('predictor_namespace'), pm, kw.get('default_namespace'))
+        extras = {n: extra(p) for n, p in md.items() if extra(p)}
+    return R.Cat(ints, kw.get('predictor_namespace'), pm, kw.get('default_namespace'), extras)
 
 
 JOIN_OPERANDS = ['int1.t', 'INT1.t', 'Int1.s', '`INT1`.t', 'int2.t2', 'INT2.s2', 'int1', 'int2', 'mindsdb', 't',
@@ -323,6 +338,11 @@ def run(chk):
                    ('legacy', [('pred', None)]), 'mindsdb'),
              R.Cat([('n', 'int')], 'mindsdb', ('legacy', [('pred', None)]), None)]
     cats = fixed + cats
+    # catalogs with several models, one of them a time-series model
+    mcats = [R.Cat([('n', 'int1'), ('n', 'int2')], None, ('list', [('pred', 'mindsdb'), ('tp', 'mindsdb'), ('m2', 'proj')]), dns,
+                   {'tp': R.Cat.TS}) for dns in ('mindsdb', 'int1', 'proj')]
+    mcats.append(R.Cat([('d', 'int1', 'data', 'sql'), ('n', 'INT2')], 'mindsdb', ('legacy', [('pred', None), ('tp', None)]), 'mindsdb',
+                       {'tp': R.Cat.TS}))
     lines, metas, dist = [], [], {}
 
     def bump(k):
@@ -340,6 +360,24 @@ def run(chk):
             parts = [p or 'e' for p in parts]
         lines.append(json.dumps(dict(op='route', cat=c.model(), parts=[R.enc(p) for p in parts])))
         metas.append(('route', c, parts))
+    # ---- correspondence b2: ONE planner resolves a sequence of model references; each answer must be what the
+    # (stateless) model gives for that reference alone — no hidden state between references
+    seqs = {}
+    for si in range(60 if quick else 1500):
+        c = rng.choice(mcats + fixed[:3])
+        seq = []
+        for _ in range(rng.randint(2, 5)):
+            parts = [rng.choice(['mindsdb', 'MINDSDB', 'proj', 'int1']), rng.choice(['pred', 'PRED', 'tp', 'm2'])]
+            if rng.random() < 0.3:
+                parts = parts[1:]
+            if rng.random() < 0.6:
+                parts.append(rng.choice(['1', '2', '3', '12']))
+            seq.append(parts)
+        seqs[si] = (c, seq)
+        for k, parts in enumerate(seq):
+            lines.append(json.dumps(dict(op='route', cat=c.model(), parts=[R.enc(p) for p in parts])))
+            metas.append(('predseq', c, (si, k, parts)))
+    seq_real = {}
     # ---- correspondence c/d + probe: statements
     stmts = []
     for i in range(n_q):
@@ -364,6 +402,20 @@ def run(chk):
             for m in ('model', 'MODEL', 'model.3'):
                 stmts.append((c, 'SELECT * FROM %s.%s WHERE x = 1' % (q, m), 'select', ['model-select-cap']))
                 stmts.append((c, 'SELECT * FROM int1.t AS a JOIN %s.%s AS m' % (q, m), 'select', ['model-join-cap']))
+    # several model references in ONE statement (versions / spellings differ): every reference is resolved on its own
+    for i in range(240 if quick else 3000):
+        c = mcats[i % len(mcats)]
+        g = R.QGen(rng, c, adversarial=0.0)
+        sql = g.multi_model()
+        if sql:
+            stmts.append((c, sql, 'select', sorted(g.features)))
+    # a table written with the default-namespace integration explicitly, followed by a schema called like another database
+    for c in (R.Cat([('n', 'int1'), ('n', 'int2')], None, None, 'int1'), R.Cat([('n', 'int1'), ('n', 'int2')], None, None, 'int2'),
+              R.Cat([('n', 'int1'), ('n', 'int2')], None, ('list', [('pred', 'mindsdb')]), 'int1')):
+        for a in ('int1.int2.t2', 'INT1.int2.s2', 'int1.mindsdb.t', 'int2.int1.t', 'int2.mindsdb.s2', 'int1.files.t', 'int1.sch.t'):
+            for b in ('int2.t2', 'int1.s', 'mindsdb.pred', 'int2.int1.s'):
+                stmts.append((c, 'SELECT * FROM %s AS a JOIN %s AS b ON a.id = b.id' % (a, b), 'select', ['schema=database']))
+                stmts.append((c, 'SELECT * FROM %s AS b JOIN %s AS a ON a.id = b.id' % (b, a), 'select', ['schema=database']))
     # CTE names that collide with the last part of a qualified table; DELETE with qualified columns at top level
     for c in (fixed[0], R.Cat([('n', 'int1'), ('n', 'int2')], None, None, 'int1'), R.Cat([('n', 'INT1'), ('n', 'int2')], None, None, 'int2')):
         for q1, q2 in (('int1', 'int2'), ('INT1', 'Int2'), ('`int1`', 'INT2')):
@@ -405,7 +457,7 @@ def run(chk):
         outs = None
         chk.oblige('corr:route-driver', 'correspondence', False, 'driver failed: %s' % e)
     if outs is not None:
-        res = {k: [0, 0, None] for k in ('cat', 'route', 'plan', 'strip')}
+        res = {k: [0, 0, None] for k in ('cat', 'route', 'predseq', 'plan', 'strip')}
         skipped_big = []
         variants = R.Variants()
         for (op, c, arg), o in zip(metas, outs):
@@ -425,6 +477,20 @@ def run(chk):
                         why = dict(catalog=c.kwargs(), parts=arg, field=key, impl=real[key], model=mod[key])
                         break
                 bump('route/%s/%s' % ('agree' if o['agree'] else 'disagree-class', mod['routeJoin'][0]))
+            elif op == 'predseq':
+                si, k, parts = arg
+                if si not in seq_real:
+                    from mindsdb_sql.parser.ast import Identifier
+                    pl = R.planner_for(c)
+                    out = []
+                    for ps in seqs[si][1]:
+                        info = pl.get_predictor(Identifier(parts=list(ps)))
+                        out.append(None if info is None else [info.get('integration_name'), info['name'], info['version']])
+                    seq_real[si] = out
+                mod = R.model_route(o)['pred']
+                if seq_real[si][k] != mod:
+                    why = dict(catalog=c.kwargs(), sequence=seqs[si][1], position=k, field='get_predictor (same planner)',
+                               impl=seq_real[si][k], model=mod)
             elif op == 'plan':
                 sql, ast = arg
                 real = R.real_plan_top(c, ast)
